@@ -3,6 +3,7 @@ C15 — Experiment records are exact: log entries, log export, configuration exp
 Property theorems only; helper lemmas are in `Proofs/C15.lean`.
 -/
 import MahfModel.Proofs.C15
+import MahfModel.Proofs.C15Cfg
 namespace MahfModel.Props.C15
 open MahfModel.Log
 
@@ -70,6 +71,69 @@ theorem missing_source_is_null (rules : List (Rule N V)) (r : Rule N V) (hr : r 
   | none =>
     rw [lookup_none_iff] at hl
     exact absurd (List.mem_map_of_mem (f := Prod.fst) hm) hl
+
+/-- The entry of a name is the value read by the FIRST fired rule of that name — `some v`, or the
+explicit null `none` if that rule's source state is missing (rules before it either do not fire or
+carry another name; whatever comes after it is irrelevant). -/
+theorem first_fired_rule_value (pre post : List (Rule N V)) (r : Rule N V) (hf : r.trig = .fire)
+    (hpre : ∀ q ∈ pre, q.trig = .fire → q.name ≠ r.name) :
+    lookup (dedup (fired (pre ++ r :: post))) r.name = some r.value := by
+  have h1 : lookup (dedup (fired (pre ++ r :: post))) r.name = lookup (fired (pre ++ r :: post)) r.name :=
+    lookup_dedupAux _ [] _ (by simp)
+  rw [h1]
+  have hfd : fired (pre ++ r :: post) = fired pre ++ (r.name, r.value) :: fired post := by
+    simp [fired, List.filter_append, hf]
+  rw [hfd, lookup_append_of_not_mem]
+  · simp [lookup]
+  · simp only [fired, List.map_map, List.mem_map, List.mem_filter, decide_eq_true_eq, not_exists, not_and]
+    intro q hq
+    exact fun he => hpre q hq.1 hq.2 he
+
+/-- Executions in which nothing fires add nothing: if no trigger fires (and none fails), the log is
+unchanged — whatever the extractors would have read, with or without a loop counter. -/
+theorem nothing_fires_adds_nothing (iterName : N) (rules : List (Rule N V)) (it : Option V) (log : Log N V)
+    (h : ∀ r ∈ rules, r.trig = .skip) : loggerExec iterName rules it log = .ok log := by
+  rw [logger_step iterName rules it log (fun r hr => Or.inr (h r hr))]
+  have hf : fired rules = [] := by
+    simp only [fired, List.map_eq_nil_iff, List.filter_eq_nil_iff, decide_eq_true_eq]
+    intro r hr hfire
+    rw [h r hr] at hfire
+    cases hfire
+  simp [specStepO, hf, dedup, dedupAux]
+
+/-- …and conversely a step is appended as soon as one trigger fires. -/
+theorem some_trigger_fires_adds_one (iterName : N) (rules : List (Rule N V)) (it : Option V) (log : Log N V)
+    (h : ∀ r ∈ rules, r.trig = .fire ∨ r.trig = .skip) (r : Rule N V) (hr : r ∈ rules) (hf : r.trig = .fire) :
+    ∃ st, loggerExec iterName rules it log = .ok (log ++ [st]) ∧ (lookup st r.name).isSome = true := by
+  rw [logger_step iterName rules it log h]
+  have hm := missing_source_is_null rules r hr hf
+  have hne : (dedup (fired rules)).isEmpty = false := by
+    cases hd : dedup (fired rules) with
+    | nil => rw [hd] at hm; simp [lookup] at hm
+    | cons _ _ => rfl
+  simp only [specStepO, hne, Bool.false_eq_true, if_false]
+  split
+  · exact ⟨_, rfl, hm⟩
+  · rename_i hc
+    cases it with
+    | none => exact ⟨_, rfl, hm⟩
+    | some v =>
+      refine ⟨_, rfl, ?_⟩
+      have hin : r.name ∈ (dedup (fired rules)).map Prod.fst := by
+        cases hl : lookup (dedup (fired rules)) r.name with
+        | none => rw [hl] at hm; cases hm
+        | some w =>
+          apply Classical.byContradiction
+          intro hnm
+          rw [(lookup_none_iff _ _).2 hnm] at hl
+          cases hl
+      have hne' : ¬ iterName = r.name := by
+        intro he
+        apply hc
+        rw [contains_iff, he]
+        exact hin
+      simp only [lookup, List.find?_cons, hne', decide_false]
+      exact hm
 
 /-- A logger execution only completes if no trigger that was reached returned `Err` or panicked
 (contrapositive: a failing trigger aborts the execution, which returns no log). -/
@@ -184,6 +248,65 @@ theorem ser_names_every_node (ea : A → A') (eb : B → B') (t : CTree A B) (a 
 
 end Config
 
+section ConfigNames
+
+/-- `std::any::type_name` is injective on types: two type names (path + generic arguments, nested to
+any depth) that render to the same string are the same type. This is the hypothesis `ser_injective`
+needs for the leaves written by `SerializablePhantom<T>` (IdLens / ValueOf / NormalizedDiversityLens)
+and `PhantomId<I>`. -/
+theorem type_name_injective (t t' : Ty) (h : t.render = t'.render) : t = t' :=
+  Ty.render_injective t t' h
+
+/-- With the full type name in every leaf the serialisation is injective: configurations that differ
+in a node, in nesting, in a parameter value or ONLY in a type parameter of a lens target / identifier
+(at any depth of the generic arguments) serialise differently. No side conditions. -/
+theorem ser_full_injective (a b : CTree String Param) (h : serFull a = serFull b) : a = b :=
+  ser_injective id encFull (fun _ _ h => h) encFull_injective a b h
+
+/-- `sameConfig` (used by the executable predicate) decides equality of configurations. -/
+theorem sameConfig_iff (a b : CTree String Param) : sameConfig a b = true ↔ a = b := by
+  simp only [sameConfig, decide_eq_true_eq]
+  exact ⟨ser_full_injective a b, fun h => by rw [h]⟩
+
+/-- What the code writes determines the configuration up to the type parameters it holds as plain
+`PhantomData` … -/
+theorem ser_code_up_to_phantom (a b : CTree String Param) (h : serCode a = serCode b) :
+    erasePh a = erasePh b :=
+  ser_full_injective _ _ h
+
+/-- … so (`_partial`: trees with a `PhantomData<I>`-held type parameter are excluded, see
+`phantom_identifier_violates`) the code's serialisation is injective on all other trees. -/
+theorem ser_code_injective_partial (a b : CTree String Param) (ha : noPh a = true) (hb : noPh b = true)
+    (h : serCode a = serCode b) : a = b := by
+  have := ser_code_up_to_phantom a b h
+  rwa [erasePh_of_noPh a ha, erasePh_of_noPh b hb] at this
+
+/-- On those trees the code-shaped prediction of a pair case satisfies the property's predicate. -/
+theorem pair_model_holds_partial (jr : Bool) (a b : CTree String Param) (ha : noPh a = true) (hb : noPh b = true) :
+    pairHolds a b (pairModel jr a b) = true := by
+  simp only [pairHolds, pairModel, sameConfig, serCode, serFull, erasePh_of_noPh a ha, erasePh_of_noPh b hb]
+  cases jr <;> simp <;> congr
+
+/-- The full statement (every tree) — it does NOT hold. -/
+def ser_code_injective_full : Prop := ∀ a b : CTree String Param, serCode a = serCode b → a = b
+
+/-- Counterexample (known finding `cfg-typair-phantom`, the recorded witness): inside
+`while LessThanN::iterations(100) { … }`, `NormalMutation::<Global>` and `NormalMutation::<A>` (which read
+different `MutationRate<…>` / `MutationStrength<…>` states) export identically, because the identifier
+is a plain `PhantomData<I>` field. -/
+theorem phantom_identifier_violates :
+    pairHolds (inLoop100 (normalMutationOf tyIdGlobal)) (inLoop100 (normalMutationOf tyIdA))
+      (pairModel true (inLoop100 (normalMutationOf tyIdGlobal)) (inLoop100 (normalMutationOf tyIdA))) = false := by decide
+
+theorem ser_code_injective_full_fails : ¬ ser_code_injective_full := by
+  intro h
+  have := h (normalMutationOf tyIdA) (normalMutationOf tyIdB) (by decide)
+  have hs : sameConfig (normalMutationOf tyIdA) (normalMutationOf tyIdB) = false := by decide
+  rw [(sameConfig_iff _ _).2 this] at hs
+  cases hs
+
+end ConfigNames
+
 /-! Non-vacuity: concrete, non-trivial instances of the hypotheses. -/
 example : ∀ r ∈ ([⟨.fire, "a", some 1⟩, ⟨.skip, "b", none⟩, ⟨.fire, "a", some 2⟩] : List (Rule String Nat)),
     r.trig = .fire ∨ r.trig = .skip := by decide
@@ -194,6 +317,9 @@ example : loggerExec "it" ([⟨.fire, "a", some 1⟩, ⟨.fire, "c", none⟩] : 
 example : (match runProgram 10 (some [⟨.always, .xId⟩]) (.cons .log (.cons (.setx 2) (.cons .log .nil))) with
     | .ok s => s.log == [[("c15::X", none)], [("c15::X", some 2)]]
     | .error _ => false) = true := by decide
+-- first_fired_rule_value: a skipped rule of the same name and a fired rule of another name in front, source missing
+example : lookup (dedup (fired ([⟨.skip, "a", some 9⟩, ⟨.fire, "b", some 1⟩] ++ (⟨.fire, "a", none⟩ : Rule String Nat) :: [⟨.fire, "a", some 2⟩]))) "a"
+    = some none := by decide
 example : ∀ s ∈ ([[("it", some 0), ("a", some 1)], [("a", none), ("it", some 1), ("b", some 2)]] : Log String Nat),
     (s.map Prod.fst).Nodup := by decide
 example : (compress ([[("it", some 0), ("a", some 1)], [("a", none), ("it", some 1), ("b", some 2)]] : Log String Nat)).names
@@ -204,5 +330,22 @@ example : (match runProgram 100 (some [⟨.every 2, .xId⟩, ⟨.always, .named 
                          [("mahf::state::common::Iterations", some 1), ("n1", some 1)],
                          [("mahf::state::common::Iterations", some 2), ("c15::X", some 2), ("n1", some 2)]]
     | .error _ => false) = true := by decide +kernel
+example : pairHolds (normalMutationOf tyIdA) (normalMutationOf tyIdB)
+    (pairModel true (normalMutationOf tyIdA) (normalMutationOf tyIdB)) = false := by decide
+example : noPh (linearOf tyIterations (tyNormalMutation .nil)) = true := by decide
+-- pairs that differ ONLY in a generic argument of a lens target are told apart by the full names …
+example : sameConfig (linearOf tyIterations (tyNormalMutation .nil)) (linearOf tyIterations (tyUniformMutation .nil)) = false := by decide
+example : sameConfig (linearOf tyIterations (tyNormalMutation (.cons tyIdA .nil))) (linearOf tyIterations (tyNormalMutation (.cons tyIdB .nil))) = false := by decide
+example : sameConfig (linearOf tyIterations (tyNormalMutation .nil)) (linearOf tyEvaluations (tyNormalMutation .nil)) = false := by decide
+example : pairHolds (linearOf tyIterations (tyNormalMutation .nil)) (linearOf tyEvaluations (tyNormalMutation .nil))
+    (pairModel true (linearOf tyIterations (tyNormalMutation .nil)) (linearOf tyEvaluations (tyNormalMutation .nil))) = true := by decide
+-- … but not by names cut at the first `<` and stripped of their path (the shortened export is not injective)
+example : (tyMutationRate (tyNormalMutation .nil)).base = (tyMutationRate (tyUniformMutation .nil)).base
+    ∧ tyMutationRate (tyNormalMutation .nil) ≠ tyMutationRate (tyUniformMutation .nil) :=
+  ⟨by decide, fun h => by
+    have := congrArg Ty.render h
+    revert this; decide⟩
+example : String.ofList (tyProgress (tyValueOf tyIterations)).render
+    = "mahf::state::common::Progress<mahf::lens::common::ValueOf<mahf::state::common::Iterations>>" := by decide
 
 end MahfModel.Props.C15
